@@ -493,6 +493,48 @@ func fineStartWhileExiting(seed uint64) []lib.Case {
 	return []lib.Case{cr.finish("start-during-exit#"+strconv.FormatUint(seed, 10), seed, nil, nil)}
 }
 
+// ---- a channel with MANY ready consumers is paused: the flag must be in force before the
+// first of them is woken to re-read it (a consumer woken earlier sees "not paused", goes back
+// to waiting for messages and is never woken again).  No park: the wake-up loop over many
+// consumers is the window; whatever is delivered after the acknowledged pause is the failure. ----
+var manyConsumers = func() int {
+	if v, err := strconv.Atoi(os.Getenv("VERIF_MANY")); err == nil && v > 0 {
+		return v
+	}
+	return 120
+}()
+
+func finePauseManyConsumers(seed uint64) []lib.Case {
+	cr := newFineCase(seed, 200)
+	cr.opCreateTopic(1)
+	cr.opCreateChan(1, 1)
+	cr.quiet = true
+	var ks []*shClient
+	for i := 0; i < manyConsumers; i++ {
+		k := cr.opConnectTmo(longTimeoutMs, false)
+		cr.opSub(k, 1, 1)
+		cr.opRdy(k, 1)
+		ks = append(ks, k)
+	}
+	cr.quiet = false
+	cr.after()
+	for round := 0; round < 8; round++ {
+		cr.opPauseChan(1, 1, true)
+		cr.opPub(1, 40, false, false) // acknowledged after the pause: nothing of it may be delivered
+		cr.opPauseChan(1, 1, false)
+		// everything is delivered now; answer it so that the consumers are ready again
+		for _, k := range ks {
+			for tg, id := range k.held {
+				cr.quiet = true
+				cr.answer(k, "FIN", tg, id, 0)
+				cr.quiet = false
+			}
+		}
+		cr.after()
+	}
+	return []lib.Case{cr.finish("pause-many-consumers#"+strconv.FormatUint(seed, 10), seed, nil, nil)}
+}
+
 // ---- graceful Exit while a TOUCH is between its in-flight pop and its push back: the
 // message is in no set when the channel's backlog is written ----
 func fineExitWhileTouching(seed uint64) []lib.Case {
@@ -1032,6 +1074,7 @@ var fineScenarios = map[string]func(uint64) []lib.Case{
 	"fin-vs-timeout-scan":            fineFinWhileScanExpires,
 	"sub-vs-channel-delete":          fineSubWhileChannelDeleting,
 	"start-during-exit":              fineStartWhileExiting,
+	"pause-many-consumers":           finePauseManyConsumers,
 	"touch-vs-empty":                 fineEmptyWhileTouching,
 	"dscan-vs-empty":                 fineEmptyVsDeferredScan,
 	"two-deletes-on-ephemeral-topic": fineTwoDeletesOnEphemeralTopic,
@@ -1057,7 +1100,7 @@ var fineScenarios = map[string]func(uint64) []lib.Case{
 var fineByProfile = map[string][]string{
 	"c01": {"pump-vs-sub", "deliver-vs-disconnect", "touch-cap", "exit-vs-pub", "fin-vs-timeout-scan"},
 	"c08": {"deliver-vs-empty", "sub-vs-topic-delete", "fin-vs-empty", "empty-vs-wakeup", "scan-vs-empty", "req-vs-empty", "pub-vs-topic-delete", "two-deletes-on-ephemeral-topic", "touch-vs-empty", "dscan-vs-empty", "sub-vs-channel-delete"},
-	"c03": {"fin-vs-empty", "deliver-vs-empty", "pause-vs-pump"},
+	"c03": {"fin-vs-empty", "deliver-vs-empty", "pause-vs-pump", "pause-many-consumers"},
 	"c13": {"fin-vs-empty", "deliver-vs-empty", "touch-cap", "sub-vs-channel-delete"},
 	"c02": {"deliver-vs-disconnect", "touch-then-scan", "touch-cap", "touch-vs-timeout-scan", "sub-vs-channel-delete"},
 	"c04": {"touch-then-scan", "touch-cap", "touch-vs-timeout-scan", "fin-vs-timeout-scan"},
